@@ -8,7 +8,10 @@ Tie (go/overlay/internal/verif/c18, hooks zz_verif_conv.go / zz_verif_hooks.go):
   upd / open / mut / openmut   every attribute, NLRI and capability of the package's rich test messages plus constructor-built
          values of the remaining families, and value-level mutants of them that the codec parses and re-emits unchanged:
          native -> API -> native must give the same octets, API -> native -> API must be proto.Equal (no model: search)
-  path   BgpServer.AddPath through the gRPC-level converters, ListPath: same prefix, path identifier, attributes."""
+  path   BgpServer.AddPath through the gRPC-level converters, ListPath: same prefix, path identifier, attributes.
+  peer   generated neighbour configuration (timers, transport, multihop / TTL security, route reflector / server, graceful
+         restart, per-family ADD-PATH / prefix limit / GR / LLGR options) through AddPeer, then ListPeer: every field set
+         in the request is listed back with the same value."""
 import json
 from vf import core
 from checks import wirelib, c10
@@ -136,6 +139,8 @@ def line_of(c):
         return "path %d %s (%s)" % (c["id"], c["prefix"], " ".join(at_sx(a) for a in c["attrs"]))
     if op in ("mut", "openmut"):
         return "%s %d %d" % (op, c["seed"], c["n"])
+    if op == "peer":
+        return "peer %d" % c["seed"]
     return "%s %s" % (op, c["hex"])
 
 
@@ -188,7 +193,7 @@ def oracle(c, out):
         return (keys[0][0], keys[0][1][:400])
     if out.startswith("fail "):
         return (out.split()[1], out[:400])
-    if out.startswith("rejected") and c["op"] == "path":
+    if out.startswith("rejected") and c["op"] in ("path", "peer"):
         return None        # the server may refuse a route (e.g. an AS_PATH it does not accept); nothing was added
     return ("harness-" + out.split()[0], out[:400])
 
@@ -214,6 +219,7 @@ def run(ctx):
     cases += [gen_attrs_case(ctx.rng) for _ in range(na)]
     cases += [gen_stmt_case(ctx.rng) for _ in range(ctx.scale(3000, 40000))]
     cases += [gen_path_case(ctx.rng) for _ in range(ctx.scale(1500, 20000))]
+    cases += [{"op": "peer", "seed": ctx.seed * 100000 + i} for i in range(ctx.scale(800, 10000))]
 
     def more():
         return [gen_attrs_case(ctx.rng) for _ in range(2000)] + [gen_stmt_case(ctx.rng) for _ in range(2000)]
@@ -240,8 +246,8 @@ def run(ctx):
                            "capability is decided by search (round trips on constructor-built values and codec-accepted mutants), not by a theorem",
                            "mutants the converters refuse with an error are not counted as violations (the API need not accept what no constructor builds); mutants with a malformed "
                            "EVPN MAC length are skipped",
-                           "neighbour / peer-group / global configuration converters (NewPeerFromConfigStruct, newNeighborFromAPIStruct, ...) and defined sets beyond "
-                           "prefix / neighbour / community sets are NOT covered",
+                           "neighbour configuration is checked through AddPeer + ListPeer on generated requests (no theorem); peer-group and global configuration converters and "
+                           "defined sets beyond prefix / neighbour / community sets are NOT covered",
                            "API values not produced from a native value (e.g. an origin above 255, which UnmarshalAttribute truncates) are outside the quantifier and not generated"])
 
 
